@@ -715,6 +715,12 @@ def gen_candset(rng, L, R, lk, rk, stats):
     if rng.random() < 0.3:
         cols['extra'] = [rng.choice(['x', None, 'y']) for _ in sel]
     C = pd.DataFrame(cols)
+    if len(sel) and rng.random() < 0.1:
+        # a key column that went through a NaN / CSV / merge: ints have become floats (1.0 refers to the key 1)
+        for col, key, T in (('l_' + lk, lk, L), ('r_' + rk, rk, R)):
+            if str(T[key].dtype).startswith('int') and rng.random() < 0.7:
+                C[col] = C[col].astype('float64')
+                stats.hit('candset.float_keys')
     c = rng.random()
     if len(sel) and c < 0.3:
         C.index = rng.sample(range(5 * len(sel) + 5), len(sel))
